@@ -181,6 +181,7 @@ def structs():
                header='typedef struct SufRead', label='struct mp::SufRead'),
         '''
 typedef struct SufHead SufHead; typedef struct SufRead SufRead;
+size_t n;      /* SOLReader2 member `size_t len, n, n1, nbs, ui;` (sol-reader2.h): the name a function sees when it declares no local of that name */
 /* std::vector<char>::resize on an empty vector: a zero-filled block of exactly n bytes.  DFCC forbids allocation
    inside loops that carry contracts, so the block is the pool g_big allocated once by the harness with an ARBITRARY
    size; the request is assumed to be exactly that size (every request size is covered by some pool size). */
@@ -210,7 +211,7 @@ def sufheadcheck_fn(contract=True):
               contract=('__CPROVER_requires(__CPROVER_w_ok(sr, sizeof(*sr))) '
                         '__CPROVER_ensures(__CPROVER_return_value == 0 || __CPROVER_return_value == 1) '
                         '__CPROVER_ensures(__CPROVER_return_value == 0 ==> %s) '
-                        '__CPROVER_assigns(i, sr->name, sr->table, sr->tabname, sr->xp_data, sr->xp_size, g_big_hi, __CPROVER_object_whole(g_big))' % SUFHEAD_POST) if contract else '',
+                        '__CPROVER_assigns(i, n, sr->name, sr->table, sr->tabname, sr->xp_data, sr->xp_size, g_big_hi, __CPROVER_object_whole(g_big))' % SUFHEAD_POST) if contract else '',
               subst=XP_SUBST, label='mp::SOLReader2::sufheadcheck', nmatches=1)
 
 
